@@ -24,7 +24,7 @@ PROPS_FILES = ["Pms/Props/C11.lean"]
 GENERATORS = ["pair", "hess"]
 RULE = ("seeded systems: d∈{2,3} × N∈2..10 × cell {orthogonal, triclinic} × mask {0,1}^d (half fully periodic) × 1–3 species × "
         "{equal, unequal} masses × {Lennard-Jones, inverse power law (n∈{4.5,6,10,12}), harmonic/Hertz (α∈{2,2.5,3})} × random "
-        "symmetric ε/σ/r_c matrices × shift on/off; decimal-grid inputs; judged only when every rint / cutoff / r>0 decision is "
+        "symmetric ε/σ/r_c matrices (ε as a float array or, 15 %, an integer-typed array) × shift on/off; decimal-grid inputs; judged only when every rint / cutoff / r>0 decision is "
         "≥1e-6 from its flip point (margin computed by the model in exact ℚ). non-trivial = at least one interacting pair and at "
         "least one non-interacting ordered pair or ≥3 interacting pairs; distinct = distinct literal inputs")
 TRUSTED_BASE = [
@@ -80,6 +80,9 @@ def gen_case(rng, big=False):
         return M
 
     eps = symm(0.5, 2.0)
+    eps_int = rng.random() < 0.15
+    if eps_int:       # an integer-typed parameter matrix, e.g. np.array([[1, 2], [2, 1]])
+        eps = [[str(max(1, round(float(x)))) for x in row] for row in eps]
     if model == "hh":
         sig = symm(1.3, 2.0)
         rc = [row[:] for row in sig]
@@ -101,7 +104,7 @@ def gen_case(rng, big=False):
             p.append(f"{v:.3f}")
         pos.append(p)
     c = {"d": d, "n": n, "model": model, "nt": nt, "kind": kind, "H": H, "ppp": ppp, "types": types, "masses": masses,
-         "eps": eps, "sig": sig, "rc": rc, "pos": pos, "shift": rng.random() < 0.6}
+         "eps": eps, "sig": sig, "rc": rc, "pos": pos, "shift": rng.random() < 0.6, "eps_int": eps_int}
     if model == "ipl":
         c["ipl_n"] = rng.choice(["12", "10", "6", "4.5"])
         c["ipl_A"] = dec(rng, 0.5, 2.0, 2)
@@ -146,7 +149,8 @@ def real_run(c):
         ip = InteractionParams(model_name=ModelName.inverse_power_law, ipl_n=float(c["ipl_n"]), ipl_A=float(c["ipl_A"]))
     else:
         ip = InteractionParams(model_name=ModelName.harmonic_hertz, harmonic_hertz_alpha=float(c["alpha"]))
-    h = HessianMatrix(snapshot=snap, masses=masses, epsilons=f(c["eps"]), sigmas=f(c["sig"]), r_cuts=f(c["rc"]),
+    epsilons = np.array([[int(x) for x in row] for row in c["eps"]], dtype=int) if c.get("eps_int") else f(c["eps"])
+    h = HessianMatrix(snapshot=snap, masses=masses, epsilons=epsilons, sigmas=f(c["sig"]), r_cuts=f(c["rc"]),
                       ppp=np.array([int(p) for p in c["ppp"]]), shiftpotential=bool(c["shift"]))
     tmp = tempfile.mkdtemp(prefix="c11-")
     try:
@@ -316,7 +320,7 @@ def _where(c, p, q):
     blockkind = "diag" if i == j else "offdiag"
     eq = c["masses"][c["types"][i] - 1] == c["masses"][c["types"][j] - 1] if i != j else \
         len(set(c["masses"][t - 1] for t in c["types"])) == 1
-    return blockkind, ("eqm" if eq else "uneqm")
+    return blockkind, ("eqm" if eq else "uneqm") + (":int-eps" if c.get("eps_int") else "")
 
 
 def judge(c, real, rng, nfd=6):
@@ -376,19 +380,19 @@ def judge(c, real, rng, nfd=6):
     for k in range(dn):
         if lam[k] > tol:
             if not abs(om[k] * om[k] - lam[k]) <= 1e-9 * scale or om[k] < 0:
-                return "C11:omega", f"mode {k}: eigenvalue {lam[k]!r} > 0 but reported frequency {om[k]!r} is not its square root"
+                return "C11:omega", f"mode {k}: eigenvalue {float(lam[k])!r} > 0 but reported frequency {float(om[k])!r} is not its square root"
         elif lam[k] < -tol:
             if abs(om[k] - lam[k]) > 1e-9 * scale:
-                return "C11:omega:negative", f"mode {k}: eigenvalue {lam[k]!r} < 0 but reported value {om[k]!r}"
+                return "C11:omega:negative", f"mode {k}: eigenvalue {float(lam[k])!r} < 0 but reported value {float(om[k])!r}"
         else:
             if not (abs(om[k] * om[k] - lam[k]) <= 2 * tol or abs(om[k] - lam[k]) <= 2 * tol):
-                return "C11:omega:zero", f"mode {k}: eigenvalue {lam[k]!r} ≈ 0 but reported value {om[k]!r}"
+                return "C11:omega:zero", f"mode {k}: eigenvalue {float(lam[k])!r} ≈ 0 but reported value {float(om[k])!r}"
         w = (V[:, k].reshape(n, d) ** 2).sum(axis=1)
         pr = w.sum() ** 2 / (n * (w ** 2).sum())
         if not (0 < PR[k] <= 1 + 1e-12):
-            return "C11:PR:range", f"mode {k}: participation ratio {PR[k]!r} outside (0, 1]"
+            return "C11:PR:range", f"mode {k}: participation ratio {float(PR[k])!r} outside (0, 1]"
         if abs(PR[k] - pr) > 1e-10:
-            return "C11:PR:value", f"mode {k}: participation ratio {PR[k]!r}, definition gives {pr!r}"
+            return "C11:PR:value", f"mode {k}: participation ratio {float(PR[k])!r}, definition gives {float(pr)!r}"
     return None
 
 
@@ -413,7 +417,7 @@ def run_cases(run, cases, nfd):
         toks = o.split()
         margin, npairs, dn = Fraction(toks[0]), int(toks[1]), int(toks[2])
         run.hist("dim", c["d"]); run.hist("model", c["model"]); run.hist("n", c["n"]); run.hist("species", c["nt"])
-        run.hist("cell", c["kind"]); run.hist("mask", "".join(c["ppp"])); run.hist("class", classify(c))
+        run.hist("cell", c["kind"]); run.hist("mask", "".join(c["ppp"])); run.hist("class", classify(c)); run.hist("epsilons_dtype", "int" if c.get("eps_int") else "float")
         if margin < Fraction(1, 10 ** 6):
             skipped += 1
             continue
